@@ -330,7 +330,12 @@ def check(ctx: Ctx, ev: Evidence) -> list[Finding]:
     called = {ast.unparse(n.func) for n in ast.walk(mod[0]) if isinstance(n, ast.Call)} if mod else set()
     mod_fns = [f for f in mod_fns if f.name in called]
     if not mod_fns:
-        raise AnalysisError("modular checksum function not found (callee of the MODULAR branch in cfdppy.crc)")
+        if any(f.rule == "C09-R3" for f in out):
+            # the MODULAR branch no longer delegates to the word-wise function: that definite finding is the answer, the word-grid
+            # rules have nothing to look at
+            print("note: modular checksum function not found (callee of the MODULAR branch in cfdppy.crc) - reported together with the violation(s) below")
+        else:
+            raise AnalysisError("modular checksum function not found (callee of the MODULAR branch in cfdppy.crc)")
     for mf in mod_fns:
         reads = [n for n in ast.walk(mf.node) if isinstance(n, ast.Call) and isinstance(n.func, ast.Attribute) and n.func.attr == "read" and n.args]
         if not reads:
